@@ -603,6 +603,9 @@ func (*c15Engine) Generate(seed uint64, tier string) *Case {
 	b, _ := json.Marshal(&p)
 	sc := drawSched(r, 5000)
 	sc.MaxTicks = 5_000_000
+	if p.Prom != nil && p.Prom.Prog.Nodes > 500 {
+		sc.MaxTicks = 40_000_000 // marathon programs
+	}
 	return &Case{Params: b, Sched: sc}
 }
 
